@@ -75,6 +75,7 @@ type genState struct {
 	// quarantine switches (features switched off while a known finding is active)
 	noCRLFLineComment bool
 	crlf              bool
+	q                 quarantine
 }
 
 func (g *genState) fresh(prefix string) string {
@@ -102,6 +103,37 @@ var chunkKinds = []string{
 	"heredoc-interp", "interp", "interp-ml", "line-comment", "trailing-comment", "block-comment",
 	"block-comment-ml", "echo", "func", "class", "if", "array-ml", "expr-ml", "blank", "fwspace",
 	"closure", "html", "html-ml", "docblock", "numbers", "nested-interp", "heredoc-shaped",
+	// a backslash directly in front of a real line break (and other escapes next to line breaks)
+	"bs-newline",
+	// passes that rewrite the source or the token list before parsing: alternative syntax
+	// (parser/preprocessor.go, .php files only) with headers that span lines; automatic
+	// semicolons, `\Name` merging (lexer/preprocessor.go)
+	"alt-if", "alt-while", "alt-for", "alt-foreach", "alt-switch", "alt-nested", "alt-html", "asi", "ns-name",
+	// unusual but legal layouts: line break between the keyword and `(`, between `)` and `:`
+	"alt-loose-kw-paren", "alt-loose-paren-colon",
+}
+
+// chunk kinds that need template mode (.php): inline HTML and the alternative-syntax rewriter
+var phpOnlyChunk = map[string]bool{"html": true, "html-ml": true, "alt-if": true, "alt-while": true, "alt-for": true,
+	"alt-foreach": true, "alt-switch": true, "alt-nested": true, "alt-html": true,
+	"alt-loose-kw-paren": true, "alt-loose-paren-colon": true}
+
+// mlHeader lays a parenthesised condition out over several lines (PSR-12 and friends).
+func mlHeader(r *rand.Rand, cond, in string) string {
+	switch r.Intn(6) {
+	case 0:
+		return " (\n" + in + cond + "\n)"
+	case 1:
+		return " (\n" + in + cond + ")"
+	case 2:
+		return " (" + cond + "\n)"
+	case 3:
+		return " (\n" + in + "// " + pick(r, mbWords) + "\n" + in + cond + "\n" + in + "&& true\n)"
+	case 4:
+		return " (" + cond + " &&\n" + in + "true)"
+	default:
+		return "(\n\n" + in + cond + "\n\n)"
+	}
 }
 
 func (g *genState) chunk(kind string) chunk {
@@ -152,6 +184,77 @@ func (g *genState) chunk(kind string) chunk {
 		t = fmt.Sprintf("$%s = %s\n%s\n%s;\n", v, open, strings.Join(ls, "\n"), id)
 	case "heredoc-shaped":
 		t = "$" + v + " = " + heredocShaped(r, "$v0", false) + ";\n"
+	case "bs-newline":
+		a, b := words(r, 1, 50), words(r, 1, 50)
+		switch r.Intn(8) {
+		case 0:
+			t = fmt.Sprintf("$%s = \"%s\\\n%s\";\n", v, a, b) // "a\<LF>b"
+		case 1:
+			t = fmt.Sprintf("$%s = '%s\\\n%s';\n", v, a, b) // 'a\<LF>b'
+		case 2:
+			t = fmt.Sprintf("$%s = \"%s\\\\\n%s\";\n", v, a, b) // "a\\<LF>b"
+		case 3:
+			t = fmt.Sprintf("$%s = \"%s\\n\n%s\\t\n\";\n", v, a, b) // escape sequences right before real line breaks
+		case 4:
+			t = fmt.Sprintf("$%s = <<<EOT\n%s \\\n%s\\\n\\\nEOT;\n", v, a, b)
+		case 5:
+			t = fmt.Sprintf("$%s = <<<'EOT'\n%s \\\n%s\\\nEOT;\n", v, a, b)
+		case 6:
+			t = fmt.Sprintf("$%s = \"%s {$v0}\\\n%s $v0 \\\n\";\n", v, a, b)
+		default:
+			t = fmt.Sprintf("$%s = \"%s \\\"\n%s\\\n\\\n\\\n%s\";\n", v, a, b, a)
+		}
+	case "alt-if":
+		in := g.indent()
+		t = fmt.Sprintf("if%s:\n%s$%s = 1;\nelseif%s:\n%s$%s = 2;\nelse:\n%s$%s = 3;\nendif;\n",
+			mlHeader(r, "$v0 > 0", in), in, v, mlHeader(r, "$v0 < 0", in), in, v, in, v)
+	case "alt-while":
+		in := g.indent()
+		t = fmt.Sprintf("$%s = 2;\nwhile%s:\n%s$%s--;\nendwhile;\n", v, mlHeader(r, "$"+v+" > 0", in), in, v)
+	case "alt-for":
+		in := g.indent()
+		w := g.fresh("v")
+		hdr := fmt.Sprintf(" (\n%s$%s = 0;\n%s$%s < 2;\n%s$%s++\n)", in, w, in, w, in, w)
+		if r.Intn(3) == 0 {
+			hdr = fmt.Sprintf(" ($%s = 0;\n%s$%s < 2; $%s++)", w, in, w, w)
+		}
+		t = fmt.Sprintf("$%s = 0;\nfor%s:\n%s$%s += 1;\nendfor;\n", v, hdr, in, v)
+	case "alt-foreach":
+		in := g.indent()
+		hdr := fmt.Sprintf(" (\n%s[1, 2] as $fk => $fv\n)", in)
+		if r.Intn(3) == 0 {
+			hdr = fmt.Sprintf(" ([1,\n%s2] as $fv\n)", in)
+		}
+		t = fmt.Sprintf("$%s = 0;\nforeach%s:\n%s$%s += $fv;\nendforeach;\n", v, hdr, in, v)
+	case "alt-switch":
+		in := g.indent()
+		t = fmt.Sprintf("switch%s:\n%scase 1:\n%s%s$%s = 'a';\n%s%sbreak;\n%sdefault:\n%s%s$%s = 'b';\nendswitch;\n",
+			mlHeader(r, "$v0", in), in, in, in, v, in, in, in, in, in, v)
+	case "alt-nested":
+		in := g.indent()
+		t = fmt.Sprintf("$%s = 0;\nif%s:\n%sforeach (\n%s%s[1, 2] as $nv\n%s):\n%s%sif%s:\n%s%s%s$%s += $nv;\n%s%sendif;\n%sendforeach;\nendif;\n",
+			v, mlHeader(r, "$v0 > 0", in), in, in, in, in, in, in, mlHeader(r, "$nv > 1", in+in), in, in, in, v, in, in, in)
+	case "alt-html":
+		in := g.indent()
+		t = fmt.Sprintf("if%s: ?>\n<p>%s</p>\n<?php elseif%s: ?>\n<b>x</b>\n<?php else: ?>\n<i>y</i>\n<?php endif; ?>\n<ul>\n<?php foreach (\n%s[1, 2] as $hv\n): ?>\n<li><?php echo $hv; ?></li>\n<?php endforeach;\n",
+			mlHeader(r, "$v0 > 0", in), words(r, 1, 70), mlHeader(r, "$v0 < 0", in), in)
+	case "alt-loose-kw-paren":
+		in := g.indent()
+		t = fmt.Sprintf("if\n($v0 > 0):\n%s$%s = 1;\nelseif\n%s($v0 < 0):\n%s$%s = 2;\nendif;\n", in, v, in, in, v)
+		if r.Intn(2) == 0 {
+			t = fmt.Sprintf("$%s = 2;\nwhile\n\n($%s > 0):\n%s$%s--;\nendwhile;\n", v, v, in, v)
+		}
+	case "alt-loose-paren-colon":
+		in := g.indent()
+		t = fmt.Sprintf("if ($v0 > 0)\n:\n%s$%s = 1;\nelseif ($v0 < 0)\n%s:\n%s$%s = 2;\nendif;\n", in, v, in, in, v)
+		if r.Intn(2) == 0 {
+			t = fmt.Sprintf("$%s = 0;\nforeach ([1, 2] as $lv)\n\n:\n%s$%s += $lv;\nendforeach;\n", v, in, v)
+		}
+	case "asi":
+		w := g.fresh("v")
+		t = fmt.Sprintf("$%s = %d\n$%s = $%s + 1\necho $%s\n", v, r.Intn(50), w, v, w)
+	case "ns-name":
+		t = fmt.Sprintf("$%s = \\strlen('%s');\n", v, pick(r, asciiWords))
 	case "interp":
 		t = fmt.Sprintf("$%s = \"%s {$v0} %s $v0 %s\";\n", v, words(r, 1, 90), words(r, 1, 60), words(r, 1, 60))
 	case "interp-ml":
@@ -239,8 +342,12 @@ func (g *genState) randomChunks(n int) []chunk {
 	var out []chunk
 	for i := 0; i < n; i++ {
 		k := chunkKinds[g.r.Intn(len(chunkKinds))]
-		if !g.php && (k == "html" || k == "html-ml") {
+		if !g.php && phpOnlyChunk[k] {
 			k = "assign-str-mb"
+		}
+		if strings.HasPrefix(k, "alt-loose-") && (g.crlf || g.q.altLooseLayout) {
+			// CRLF: the rewriter does not accept "\r" between keyword, `(`, `)` and `:` (not a position matter)
+			k = "alt-if"
 		}
 		out = append(out, g.chunk(k))
 	}
@@ -588,7 +695,7 @@ func genProgram(r *rand.Rand, withFault bool, q quarantine) *program {
 	if p.Mode == "php" && r.Intn(12) == 0 && !q.shebang {
 		p.Shebang = true
 	}
-	g := &genState{r: r, php: p.Mode == "php", crlf: p.CRLF, noCRLFLineComment: q.crlfLineComment}
+	g := &genState{r: r, php: p.Mode == "php", crlf: p.CRLF, noCRLFLineComment: q.crlfLineComment, q: q}
 	p.Head = g.randomChunks(1 + r.Intn(8))
 	if withFault {
 		k := faultKinds[r.Intn(len(faultKinds))]
@@ -618,6 +725,7 @@ type quarantine struct {
 	byteNewline     bool // no byte literal with a line break inside
 	nonUTF8String   bool // no string literal with bytes that are not UTF-8
 	staticInClosure bool // no static call on an undefined class inside a closure body
+	altLooseLayout  bool // no alternative-syntax header with a line break between keyword and `(` or between `)` and `:`
 }
 
 func (q quarantine) faultOff(k string) bool {
@@ -644,6 +752,9 @@ var soupAtoms = []string{
 	"0", "7", "42", "3.14", "0x1F", "0b101", "017", "1e3", "2.5e-3", "1E+9", "-5", "1_000", "9999999999",
 	"'s'", "\"d\"", "''", "\"\"", "'日本語'", "\"é {$a} ü\"", "\"x $a y\"", "\"ß{$a->b}→{$c[1]}\"", "'it\\'s'", "\"q\\\"q\"", "\"a\\$b\"", "`ls`",
 	"b'x'", "\"@{foo(1)} é\"", "\"{$a}\"", "\"日{$a}本\"",
+	// a backslash (or an escape sequence) directly in front of a real line break, in every string kind
+	"\"a\\\nb\"", "'a\\\nb'", "`a\\\nb`", "\"a\\\\\nb\"", "\"x\\n\ny\\t\n\"", "\"q\\\"\nz\"", "\"é {$a}\\\n$a \\\n\"", "'\\\n\\\n'",
+	"<<<EOT\nx \\\ny\\\n\\\nEOT;\n", "<<<'EOT'\nx \\\ny\\\nEOT;\n", "<<<EOT\n{$a} \\\n$a\\\nEOT;\n",
 	"// c\n", "/* c */", "/* 日本\n語 */", "/** d */", "// é ü\n",
 	"\n", "\n\n", "\t", "  ", "　", "\n    ",
 }
@@ -778,6 +889,14 @@ func heredocShaped(r *rand.Rand, variable string, objVar bool) string {
 		l := ind + words(r, 1+r.Intn(3), 50)
 		if i == at && form != "" {
 			l += " " + form + " " + pick(r, mbWords)
+		}
+		switch r.Intn(8) {
+		case 0:
+			l += "\\" // backslash directly in front of the line break
+		case 1:
+			l += " \\\\"
+		case 2:
+			l += "\\n"
 		}
 		body = append(body, l)
 		if r.Intn(4) == 0 {
